@@ -1,3 +1,274 @@
-"""Binding self-tests: a correct recorded shard is accepted, one corrupted field per event kind is rejected at that line."""
+"""Binding self-tests (DESIGN.md 4.5): a correct recorded shard is accepted by its trace specification with no
+mismatch; the same shard with ONE field of ONE event corrupted is rejected, at that line, under the expected property.
+This demonstrates that the specification is bound to what the recorder logs (a permissive trace spec would pass
+the corrupted traces)."""
+import json, os, re, shutil
+from vlib import *      # noqa
+import vlib
+
+
+def _load(path):
+    return [json.loads(l) for l in open(path)]
+
+
+def _dump(events, path):
+    with open(path, "w") as fh:
+        for e in events:
+            fh.write(json.dumps(e, separators=(",", ":")) + "\n")
+
+
+def _first(events, kind, pred=lambda e: True):
+    for i, e in enumerate(events):
+        if e["ev"] == kind and pred(e):
+            return i
+    return None
+
+
+def _flip_hex(h):
+    return ("0" if h[0] != "0" else "1") + h[1:]
+
+
+# (name, event kind, predicate, mutation, expected property, line must equal corrupted line)
+def board_corruptions():
+    def drop_to(e):
+        e["bt"][0][2] = e["bt"][0][2][1:]
+
+    def add_pin(e):
+        s = set(e["st"]["pin"])
+        e["st"]["pin"] = sorted(s | {next(x for x in range(64) if x not in s)})
+
+    def drop_chk_or_add(e):
+        s = set(e["st"]["chk"])
+        e["st"]["chk"] = sorted(s | {next(x for x in range(64) if x not in s)})
+
+    def succ_clock(e):
+        e["st"]["hmc"] = (e["st"]["hmc"] + 1) % 100
+
+    def succ_piece(e):
+        b = e["st"]["b"]
+        i = next(i for i, p in enumerate(b) if p in (1, 7))
+        b[i] = 0
+
+    def fresh_h(e):
+        e["hs"][0]["st"]["h"] = _flip_hex(e["hs"][0]["st"]["h"])
+
+    def status(e):
+        e["s"] = "drawn" if e["s"] != "drawn" else "won"
+
+    def sfen(e):
+        e["sfen"] = e["sfen"].replace(" w ", " b ", 1) if " w " in e["sfen"] else e["sfen"].replace(" b ", " w ", 1)
+
+    def reparse_eq(e):
+        e["rs"]["eq"] = False
+
+    def islegal(e):
+        e["t"] = e["t"][1:]
+
+    def islegal_extra(e):
+        e["t"] = e["t"] + [[0, 63, 6]]
+
+    def same(e):
+        e["ab"] = 1 - e["ab"]
+
+    def null_res(e):
+        e["st"]["hmc"] = (e["st"]["hmc"] + 5) % 100
+
+    def tryplay(e):
+        e["ok"] = e["ok"][1:]
+
+    def tryplay_changed(e):
+        e["bad_err"] = [[0, 1, 0]]
+
+    def genfor(e):
+        e["bt"][0][2] = e["bt"][0][2][1:]
+
+    def abort(e):
+        e["runs"][0][1] += 1
+
+    def san(e):
+        e["mv"][0]["san"] = e["mv"][0]["san"] + "+"
+
+    def uci_back(e):
+        e["mv"][0]["ps"]["m"] = [0, 0, 0]
+
+    def sanread(e):
+        q = next(q for q in e["q"] if q["k"] == "err")
+        q["k"] = "ok"
+        q["m"] = [0, 8, 0]
+
+    def rebuild(e):
+        e["eq"] = False
+
+    def acc(e):
+        e["occ"] = e["occ"][1:]
+
+    return [
+        ("gen: one destination dropped", "gen", lambda e: e["bt"] and len(e["bt"][0][2]) > 0, drop_to, "C01"),
+        ("play: a square added to pinned", "play", lambda e: e["res"] == "ok", add_pin, "C03"),
+        ("play: a square added to checkers", "play", lambda e: e["res"] == "ok", drop_chk_or_add, "C03"),
+        ("play: half-move clock of the successor changed", "play", lambda e: e["res"] == "ok", succ_clock, "C02"),
+        ("play: a pawn removed from the successor", "play", lambda e: e["res"] == "ok" and any(p in (1, 7) for p in e["st"]["b"]), succ_piece, "C02"),
+        ("fresh: one hex digit of a fresh hash changed", "fresh", lambda e: len(e["hs"]) > 0, fresh_h, "C10"),
+        ("status flipped", "status", lambda e: True, status, "C12"),
+        ("text: side letter of the Shredder text changed", "text", lambda e: True, sfen, "C07"),
+        ("text: reparse reported unequal", "text", lambda e: True, reparse_eq, "C07"),
+        ("islegal: one legal move dropped", "islegal", lambda e: len(e["t"]) > 0, islegal, "C04"),
+        ("islegal: a king-promotion value added", "islegal", lambda e: True, islegal_extra, "C04"),
+        ("same_position answer flipped", "same", lambda e: e["ab"] in (0, 1), same, "C13"),
+        ("null move: clock of the result changed", "null", lambda e: e["res"] == "some", null_res, "C14"),
+        ("try_play: one accepted move dropped", "tryplay", lambda e: len(e["ok"]) > 0, tryplay, "C15"),
+        ("try_play: a refused move reported as changing the board", "tryplay", lambda e: True, tryplay_changed, "C15"),
+        ("generate_moves_for: one destination dropped", "genfor", lambda e: e["bt"] and len(e["bt"][0][2]) > 0, genfor, "C16"),
+        ("abort: one extra listener call", "abort", lambda e: len(e["runs"]) > 0, abort, "C16"),
+        ("SAN text altered", "san", lambda e: len(e["mv"]) > 0 and not e["mv"][0]["san"].endswith(("+", "#")), san, "C20"),
+        ("SAN reader result altered", "san", lambda e: len(e["mv"]) > 0, uci_back, "C20"),
+        ("SAN reader: an error turned into a move", "sanread", lambda e: any(q["k"] == "err" for q in e["q"]), sanread, "C20"),
+        ("rebuild reported unequal", "rebuild", lambda e: e["k"] == "ok", rebuild, "C09"),
+        ("occupied() accessor lost a square", "acc", lambda e: len(e["occ"]) > 0, acc, "EXT"),
+    ]
+
+
+def values_corruptions():
+    def bb_or(e):
+        e["or"]["v"] = e["or"]["v"][1:]
+
+    def bb_iter(e):
+        e["seq"] = list(reversed(e["seq"]))
+
+    def bb_sub(e):
+        e["subs"][1], e["subs"][2] = e["subs"][2], e["subs"][1]
+
+    def pm_len(e):
+        e["len"] += 1
+
+    def pm_has(e):
+        e["has"] = e["has"] + [[e["from"], e["to"][0], 6]]
+
+    def offs(e):
+        e["some"] = e["some"][1:]
+
+    def txt(e):
+        e["v"] = [(e["v"][0] + 1) % 64] + e["v"][1:]
+
+    def leap(e):
+        e["knight"]["v"] = e["knight"]["v"][1:]
+
+    def between(e):
+        e["between"][(e["s"] + 2) % 64]["v"] = [e["s"]]
+
+    def sl(e):
+        e["cases"][0][1]["v"] = e["cases"][0][1]["v"][1:]
+
+    def pq(e):
+        e["cases"][0][2]["v"] = [0, 1, 2]
+
+    return [
+        ("bitboard union lost a square", "bb_op", lambda e: len(e["or"]["v"]) > 0, bb_or, "C18"),
+        ("bitboard iteration order reversed", "bb_iter", lambda e: len(e["seq"]) > 1, bb_iter, "C18"),
+        ("two subsets swapped in subset iteration", "bb_subsets", lambda e: len(e["subs"]) > 3, bb_sub, "C18"),
+        ("PieceMoves::len off by one", "pm", lambda e: e["k"] == "ok", pm_len, "C17"),
+        ("PieceMoves::has accepts a king promotion", "pm", lambda e: len(e["to"]) > 0, pm_has, "C17"),
+        ("try_offset lost one successful offset", "offs", lambda e: len(e["some"]) > 0, offs, "C19"),
+        ("parsed value altered", "txt", lambda e: e["k"] == "ok" and e["ty"] == "square", txt, "C19"),
+        ("knight table lost a square", "leap", lambda e: True, leap, "C05"),
+        ("between table entry altered", "bl", lambda e: True, between, "C05"),
+        ("slider attack lost a square", "sl", lambda e: len(e["cases"][0][1]["v"]) > 0, sl, "C05"),
+        ("pawn pushes altered", "pq", lambda e: True, pq, "C05"),
+    ]
+
+
+def parse_corruptions():
+    def res_kind(e):
+        x = next(x for x in e["res"] if x["k"] == "err")
+        x["err"] = "MissingField" if x["err"] != "MissingField" else "InvalidBoard"
+
+    def build_ok(e):
+        e["k"] = "err"
+        e["err"] = "InvalidBoard"
+
+    def start(e):
+        i = next(i for i, p in enumerate(e["st"]["b"]) if p == 2)
+        j = next(i for i, p in enumerate(e["st"]["b"]) if p == 3)
+        e["st"]["b"][i], e["st"]["b"][j] = 3, 2
+
+    return [
+        ("parser error kind altered on a truncated record", "parse", lambda e: e["gen"] == "truncate" and len(e["t"]) > 3 and any(x["k"] == "err" for x in e["res"]), res_kind, "C08"),
+        ("builder result of an accepted board altered", "build", lambda e: e["gen"] == "accepted" and e["k"] == "ok", build_ok, "C09"),
+        ("start position: knight and bishop swapped", "start", lambda e: e["res"] == "ok", start, "C06"),
+    ]
+
+
+def hash_corruptions():
+    def limb(e):
+        e["ha"][0] ^= 1
+
+    return [("one bit of a key witness changed (detected later)", "key", lambda e: e["what"] == "piece", limb, "C11")]
+
+
+def _run_family(name, driver, rec_args, spec, checks, corruptions, wd):
+    prefix = os.path.join(wd, name)
+    stats = run_recorder("release", driver, ["--seed", 7, "--shards", 1, "--out", prefix] + rec_args)
+    base = prefix + ".0.ndjson"
+    events = _load(base)
+    files = {"clean": base}
+    expect = {}
+    problems = []
+    # spread the corrupted lines over the trace: take the k-th suitable event for the k-th corruption
+    for k, (label, kind, pred, mut, prop) in enumerate(corruptions):
+        idxs = [i for i, e in enumerate(events) if e["ev"] == kind and pred(e)]
+        if not idxs:
+            problems.append("no event of kind %s suitable for corruption '%s'" % (kind, label))
+            continue
+        i = idxs[min(len(idxs) - 1, k % max(1, len(idxs)))]
+        ev2 = json.loads(json.dumps(events))
+        try:
+            mut(ev2[i])
+        except Exception as ex:
+            problems.append("corruption '%s' could not be applied: %r" % (label, ex))
+            continue
+        f = os.path.join(wd, "%s-c%02d.ndjson" % (name, k))
+        _dump(ev2, f)
+        files[label] = f
+        expect[f] = (label, i + 1, prop)
+    res = run_tlc_shards(spec, list(files.values()), checks, wd, timeout=600)
+    by_file = {}
+    for (f, line, prop, chk, txt) in res.mismatches:
+        by_file.setdefault(f, []).append((line, prop, chk))
+    if by_file.get(base):
+        problems.append("clean %s trace has mismatches: %s" % (name, by_file[base][:3]))
+    ok = 0
+    for f, (label, line, prop) in expect.items():
+        got = by_file.get(f, [])
+        anywhere = label.endswith("(detected later)")
+        if any((l == line or anywhere) and p == prop for (l, p, c) in got):
+            ok += 1
+        else:
+            problems.append("corruption '%s' (line %d, expected %s) was not rejected there; got %s" % (label, line, prop, got[:3]))
+    log("[selftest] %s: clean trace of %d events accepted; %d/%d single-field corruptions rejected at the corrupted line" % (name, len(events), ok, len(expect)))
+    return problems
+
+
 def run():
+    wd = os.path.join(vlib.WORK, "selftest")
+    shutil.rmtree(wd, ignore_errors=True)
+    os.makedirs(wd, exist_ok=True)
+    allc = ["C%02d" % i for i in range(1, 21)] + ["EXT"]
+    problems = []
+    problems += _run_family("board", "board", ["--histories", 10, "--subtrees", 2, "--transpositions", 2, "--plies", 10,
+                                                "--obs", "gen,genfor,abort,islegal,tryplay,status,text,rebuild,fresh,same,san,sanread,acc", "--heavy-every", 3],
+                            "Trace_Board", allc, board_corruptions(), wd)
+    vals = os.path.join(wd, "vals")
+    problems += _run_family("bb", "bb", ["--cases", 40], "Trace_Values", allc, [c for c in values_corruptions() if c[1].startswith("bb")], wd)
+    problems += _run_family("pm", "pm", ["--cases", 30, "--boards", 2], "Trace_Values", allc, [c for c in values_corruptions() if c[1] == "pm"], wd)
+    problems += _run_family("coord", "coord", ["--move-fuzz", 50], "Trace_Values", allc, [c for c in values_corruptions() if c[1] in ("offs", "txt")], wd)
+    problems += _run_family("geom", "geom", ["--rook-squares", 1, "--bishop-squares", 2, "--random-occ", 20], "Trace_Values", allc, [c for c in values_corruptions() if c[1] in ("leap", "bl", "sl", "pq")], wd)
+    problems += _run_family("parse", "parse", ["--bases", 3, "--random", 10, "--edits", 3], "Trace_Parse", allc, [c for c in parse_corruptions() if c[1] == "parse"], wd)
+    problems += _run_family("cand", "cand", ["--bases", 6, "--random", 5, "--mutations", 3], "Trace_Parse", allc, [c for c in parse_corruptions() if c[1] == "build"], wd)
+    problems += _run_family("starts", "starts", ["--pairs", 10], "Trace_Parse", allc, [c for c in parse_corruptions() if c[1] == "start"], wd)
+    problems += _run_family("hash", "hashkeys", ["--linear", 5, "--linear-960", 2, "--witnesses", 1], "Trace_Hash", allc, hash_corruptions(), wd)
+    if problems:
+        for p in problems:
+            print("SELFTEST-FAILURE: " + p)
+        raise ToolError("binding self-test failed (%d problems)" % len(problems))
+    log("[selftest] all binding self-tests passed")
     return 0
